@@ -43,9 +43,8 @@ type TimerMsg struct {
 func (c *Crew) NewTimersSpec() *core.Spec {
 
 	onlyTimers := func(bs match.Bindings) match.Bindings {
-		acc := match.NewBindings()
-		acc["timers"] = bs["timers"]
-		return acc
+		// A copy of the (current) pending timers.
+		return c.timers.State().Bs
 	}
 
 	spec := &core.Spec{
